@@ -1,4 +1,107 @@
 import Model.Attempt
+import Proofs.Lemmas.Attempt
+import Proofs.C13
+/-!
+# C01 — accepted mail is never lost: every recipient reaches a final disposition
+
+Part 1 (this file): the ledger. For every attempt outcome and every history of outcomes (any
+mixture of whole-message and per-recipient successes, transient and permanent failures and
+unexpected exceptions, any backoff function) each accepted recipient is at all times exactly one
+of: reported delivered, failed for good (and then named in a bounce when the sender is not empty),
+or still stored for the next attempt; the message leaves storage only when nobody is outstanding;
+when the backoff stops granting retries everybody outstanding is failed and bounced.
+Scheduling ("keeps being retried") is C12 (`Proofs/Sched.lean`).
+-/
 namespace Slimta.C01
-theorem placeholder : (1 : Nat) = 1 := rfl
+open Slimta.Attempt
+
+/-- **One attempt conserves the recipients** (restated from the lemma file so that the statement
+    is visible here). -/
+theorem attempt_conservation (cfg : Cfg) (m : Msg) (o : Outcome) (hc : CompleteOutcome m o) (x : Rcpt) :
+    (attempt cfg m o).delivered.count x + ((attempt cfg m o).failed.map Prod.fst).count x
+      + restCount (attempt cfg m o) x = m.rcpts.count x :=
+  attempt_conserves cfg m o hc x
+
+/-- **The message is removed only when every recipient is final.** -/
+theorem removed_only_when_final (cfg : Cfg) (m : Msg) (o : Outcome) (hc : CompleteOutcome m o)
+    (hgone : (attempt cfg m o).msg = none) :
+    ∀ x ∈ m.rcpts, x ∈ (attempt cfg m o).delivered ∨ x ∈ (attempt cfg m o).failed.map Prod.fst := by
+  intro x hx
+  have h := attempt_conserves cfg m o hc x
+  simp only [restCount, hgone] at h
+  have : 0 < m.rcpts.count x := List.count_pos_iff.mpr hx
+  by_cases hd : x ∈ (attempt cfg m o).delivered
+  · exact Or.inl hd
+  · have h0 := List.count_eq_zero_of_not_mem hd
+    right
+    apply List.count_pos_iff.mp
+    omega
+
+/-- **When the backoff stops granting retries nobody is dropped**: the message leaves storage and
+    every recipient still outstanding is failed for good (hence bounced, see below). -/
+theorem exhaustion_fails_everyone (cfg : Cfg) (m : Msg) (o : Outcome) (hc : CompleteOutcome m o)
+    (hb : cfg.backoff (m.attempts + 1) = none) :
+    (attempt cfg m o).msg = none ∧
+    ∀ x ∈ m.rcpts, x ∈ (attempt cfg m o).delivered ∨ x ∈ (attempt cfg m o).failed.map Prod.fst := by
+  have hgone : (attempt cfg m o).msg = none := by
+    have hp : ∀ res, (handlePartial cfg m res).msg = none := by
+      intro res
+      have hunf : handlePartial cfg m res =
+          if (tempsOf res).isEmpty then ⟨none, bouncesFor cfg (permsOf res) false, oksOf res, permsOf res, none⟩
+          else retryLater cfg m (tempsOf res) (deleteIdxs (res.filterMap fun (rc, v) => match v with
+            | .ok | .perm _ => some (m.rcpts.idxOf rc)
+            | .temp _ => none) m.rcpts) (bouncesFor cfg (permsOf res) false) (oksOf res) (permsOf res) := rfl
+      rw [hunf]
+      split
+      · rfl
+      · simp [retryLater, hb]
+    cases o with
+    | success => rfl
+    | permanent r => rfl
+    | transient r => simp [attempt, hb]
+    | other r => simp [attempt, hb]
+    | mapping res => exact hp res
+    | sequence l => exact hp _
+  exact ⟨hgone, removed_only_when_final cfg m o hc hgone⟩
+
+/-- **Failed for good ⇒ reported back to the sender** (non-empty sender, default bounce factory):
+    the bounces of the attempt name exactly the recipients that failed in it. -/
+theorem failed_are_bounced (cfg : Cfg) (hs : cfg.senderNonEmpty = true) (hf : cfg.factoryBounces = true)
+    (m : Msg) (o : Outcome) (x : Rcpt) (hx : x ∈ (attempt cfg m o).failed.map Prod.fst) :
+    x ∈ (attempt cfg m o).bounces.flatMap (·.rcpts) := by
+  have := C13.bounces_name_exactly_the_failed cfg hs hf m o x
+  apply List.count_pos_iff.mp
+  rw [this]
+  exact List.count_pos_iff.mpr hx
+
+/-- **Whole histories.** Summed over all attempts made so far: delivered + failed + still stored
+    = the recipients that were accepted. Nothing is lost and nothing is counted twice. -/
+theorem history_conservation (cfg : Cfg) (os : List Outcome) (m : Msg)
+    (hv : ValidHistory cfg (some m) os) (x : Rcpt) :
+    ((runHistory cfg (some m) os).flatMap (·.delivered)).count x
+      + (((runHistory cfg (some m) os).flatMap (·.failed)).map Prod.fst).count x
+      + (match finalOf cfg (some m) os with | some f => f.rcpts.count x | none => 0)
+      = m.rcpts.count x := by
+  induction os generalizing m with
+  | nil => simp [runHistory, finalOf]
+  | cons o rest ih =>
+    obtain ⟨hc, hrest⟩ := hv
+    have h1 := attempt_conserves cfg m o hc x
+    simp only [runHistory, finalOf, List.flatMap_cons, List.count_append, List.map_append]
+    cases hm : (attempt cfg m o).msg with
+    | none =>
+      simp only [restCount, hm] at h1
+      simp [runHistory, finalOf]
+      omega
+    | some m' =>
+      rw [hm] at hrest
+      have h2 := ih m' hrest
+      simp only [restCount, hm] at h1
+      omega
+
+/-! ### non-vacuity -/
+
+example : (attempt ⟨fun a => if a < 2 then some 0 else none, true, true⟩ ⟨[0, 1, 2], 1⟩
+    (.mapping [(0, .ok), (1, .temp 4), (2, .perm 5)])).msg = none := by decide
+
 end Slimta.C01
